@@ -92,14 +92,14 @@ Theorem C05_cancel_batch_restores : forall c s b s' evs, reachable s -> cancel_b
 Proof. intros c s b s' evs R; apply cancel_batch_restores, reachable_inv, R. Qed.
 Print Assumptions C05_cancel_batch_restores.
 
-Theorem C05_refund_exact : forall s id who s' evs, reachable s -> who <> MODULE -> accepted s (Cancel id who) s' evs ->
+Theorem C05_refund_exact : forall s id who s' evs, reachable s -> 0 <= who -> accepted s (Cancel id who) s' evs ->
   exists x, In x (pool s) /\ tx_id x = id /\ tx_sender x = who /\
     get_bal (bal s') (who, tx_token x, 0) = get_bal (bal s) (who, tx_token x, 0) + (tx_amount x + tx_fee x) /\
     (forall k, user_key k -> k <> (who, tx_token x, 0) -> get_bal (bal s') k = get_bal (bal s) k).
 Proof. intros s id who s' evs R; apply refund_exact, reachable_inv, R. Qed.
 Print Assumptions C05_refund_exact.
 
-Theorem C05_fee_exact : forall s id who add token which s' evs, reachable s -> who <> MODULE ->
+Theorem C05_fee_exact : forall s id who add token which s' evs, reachable s -> 0 <= who ->
   accepted s (IncreaseFee id who add token which) s' evs ->
   0 < add /\
   (exists w, get_bal (bal s') (who, token, w) = get_bal (bal s) (who, token, w) - add /\
@@ -114,18 +114,31 @@ Print Assumptions C05_fee_exact.
 Theorem C05_call_payload : forall s o s' evs, reachable s -> accepted s o s' evs -> forall c, In c (calls s') ->
   In c (calls s) \/
   (c_nonce c = next_call s /\ c_evnonce c = 0 /\ c_block c = fxh s /\
-   o = BridgeCall (c_sender c) (c_refund c) (c_tokens c) (c_to c) (c_data c) (c_memo c)).
+   (o = BridgeCall (c_sender c) (c_refund c) (c_tokens c) (c_to c) (c_data c) (c_memo c) \/
+    exists value tokens, o = BridgeCallP (c_sender c) (c_refund c) value tokens (c_to c) (c_data c) (c_memo c) /\
+                         c_tokens c = (if 0 <? value then [(0, value)] else []) ++ tokens)).
 Proof. intros s o s' evs R; apply call_payload, reachable_inv, R. Qed.
 Print Assumptions C05_call_payload.
 
-Theorem C05_call_refund_exact : forall cs s c s' evs, c_refund c <> MODULE -> coins_valid (-1) (c_tokens c) = true ->
+(* the refund goes to the call's REFUND address: bank coins when the call was created by MsgBridgeCall, ERC-20 tokens
+   (registered coin) when it was created by the precompile; nobody else's balance moves, in particular not the sender's *)
+Theorem C05_call_refund_exact : forall cs s c s' evs, 0 <= c_refund c -> coins_valid (-1) (c_tokens c) = true ->
   refund_call cs s c = ROk (s', evs) ->
   evs = [EvCallRefund (c_nonce c) (c_refund c) (c_tokens c) cs] /\
   (forall t a, In (t, a) (c_tokens c) -> exists kd, kind_of (toks s) t = Some kd /\
-      get_bal (bal s') (c_refund c, t, refund_which kd) = get_bal (bal s) (c_refund c, t, refund_which kd) + a) /\
+      get_bal (bal s') (c_refund c, t, refund_which kd (call_from_msg s c)) =
+      get_bal (bal s) (c_refund c, t, refund_which kd (call_from_msg s c)) + a) /\
   (forall k, user_key k -> fst (fst k) <> c_refund c -> get_bal (bal s') k = get_bal (bal s) k).
 Proof. exact call_refund_exact. Qed.
 Print Assumptions C05_call_refund_exact.
+
+Theorem C05_precompile_call_refund_nonvacuous :
+  let s := run p_init p_ops in
+  calls (run p_init (firstn 2 p_ops)) <> [] /\ from_msg (run p_init (firstn 2 p_ops)) = [] /\ calls s = [] /\
+  get_bal (bal s) (1, 0, 0) = 50 /\ get_bal (bal s) (1, 3, 2) = 60 /\ get_bal (bal s) (1, 3, 0) = 0 /\
+  get_bal (bal s) (0, 0, 0) = 4950 /\ get_bal (bal s) (0, 3, 2) = 940 /\ get_bal (bal s) (0, 3, 0) = 0.
+Proof. exact precompile_call_refund_example. Qed.
+Print Assumptions C05_precompile_call_refund_nonvacuous.
 
 Theorem C05_call_settled_once : forall ops s n, reachable s -> call_settled s n -> call_settled (run s ops) n.
 Proof. intros ops s n R; apply call_settled_forever, reachable_inv, R. Qed.
